@@ -391,6 +391,10 @@ class Scenario:
         before_jobs = len(self.jobs)
         before_stops = len(self.stops)
         running_before = self.running_names()
+        # jobs whose thread is alive right now (held at the gate)
+        alive_before = [a.name for a in
+                        [self.jc.get_current()] + list(self.jc._background.values())
+                        if a is not None and a.is_running()]
         current_before = self.jc.get_current()
         queued_before = [a.name for a in self.jc.get_queued()]
         _AUDIT_ON[0] = True
@@ -492,10 +496,10 @@ class Scenario:
                 ctx.count('stop_current_raised_after_acting')
             ctx.count('stop_current_ok')
         elif handler == 'stop_all':
-            if not set(n for n in running_before) <= set(new_stops) and not \
-                    all(not a.is_running() for a in [current_before] if a):
+            must = set(alive_before)
+            if not must <= set(new_stops):
                 self.fail('stop-all:job-survives', 'running {} stopped {}'
-                          .format(sorted(running_before), new_stops))
+                          .format(sorted(must), new_stops))
                 return
             if self.jc.get_queued():
                 self.fail('stop-all:queue-not-empty', '{} still queued'.format(
